@@ -59,6 +59,14 @@ CHECKS = {
             "Every cell runs from_data, convert, Cls.from_data, Cls(*args/**kw) and into_data(result) on fresh mutable containers (also defaultdict / inserting mappings) "
             "and compares a deep snapshot before and after, for both verdicts; the same datum spelled with tuple / MappingProxyType must give the same verdict and value.",
             E1_NOTE),
+    'C10': ("explicit-state breadth-first search over operation histories on the real memo (canonical-state dedup) + stateless exploration of all thread schedules up to a preemption bound under a hand-written cooperative scheduler",
+            "Histories: BFS over BUILD / CONVERT (4 handler forms, 12 probes each) / DROP+gc / EVICT sequences on two slots with type kinds that create a fresh type object each time "
+            "(so ids really get recycled - the run counts recycling events); every CONVERT is compared with the outcome vector of a pristine interpreter; states are merged by a "
+            "canonical form with a stated soundness argument. Schedules: sys.settrace line-level cooperative scheduler with a re-entrant cooperative lock replacing KeyCache's RLock; "
+            "iterative context bounding explores every schedule with <= B preemptions of 2x2 and 3x1 lookup harnesses on colliding keys for the unbounded and LRU(0,1,2) modes and of "
+            "two threads driving the real make_converter; per schedule: results equal f(args), no exception, no deadlock, LRU ring/dict invariants at quiescence; replayed prefixes "
+            "must see identical enabled sets (determinism gate).",
+            "Source-line granularity under the GIL; preemption bound 2/1 quick, 3/2 thorough; history depth 5 quick, 6 thorough; id recycling depends on CPython's allocator (observed, counted)."),
     'C11': ("exhaustive enumeration of ordered member pairs/triples x nesting forms x overlap values on the real union converter; compositional oracle (each member alone)",
             "All ordered pairs (thorough: triples) over 20 deliberately overlapping member types in 10 nesting forms (nested/flattened unions, Optional inside and outside, "
             "container element, Annotated, dataclass field, generic dataclass field after subscription) are run on every value in any member's neighbourhood; the result must be "
